@@ -80,7 +80,9 @@ def snap_value(o, kind):
     if kind == "pauli":
         core = ("pauli", _arr(o.g), int(o.p) % 4)
     elif kind == "mono":
-        core = ("mono", _arr(o.g), int(o.p) % 4, complex(o.c))
+        # the coefficient is compared bitwise: it can legitimately be nan/inf (inverse of a zero
+        # monomial), and nan != nan would make an unchanged object look changed
+        core = ("mono", _arr(o.g), int(o.p) % 4, np.asarray(o.c, dtype=np.complex128).tobytes())
     elif kind in ("list", "map"):
         core = (kind, _arr(o.gs), _arr(o.ps))
     elif kind == "poly":
